@@ -211,6 +211,7 @@ var verifSF struct {
 	keys       []string
 	follower   bool // this caller may be a follower of another caller's flight
 	followerFn func(key string) (any, error)
+	strict     bool
 }
 
 func verifStubSFDo(g *singleflight.Group, key string, fn func() (any, error)) (any, error, bool) {
@@ -222,6 +223,10 @@ func verifStubSFDo(g *singleflight.Group, key string, fn func() (any, error)) (a
 			v, err := verifSF.followerFn(key)
 			return v, err, true
 		}
+	}
+	if verifSF.strict {
+		// a caller that already led a flight and saw it fail must report that failure, not start over
+		assert("a-caller-leads-at-most-once", ghostCount("sf.led") == 0)
 	}
 	ghostLog("sf.led")
 	v, err := fn()
@@ -253,7 +258,7 @@ var verifPendingSleep time.Duration
 
 func verifEnvReset() {
 	verifNowSec, verifNowNS = 0, 0
-	verifSF.keys, verifSF.follower, verifSF.followerFn = nil, false, nil
+	verifSF.keys, verifSF.follower, verifSF.followerFn, verifSF.strict = nil, false, nil, false
 	verifSleeps = nil
 	verifLastTimeout = 0
 }
